@@ -35,6 +35,7 @@ RULE = (
     ' Round 6: lost-link cases reconnect on the same object and read from the new connection; duplex cases issue 2-3 concurrent writes under back-pressure (bytes must be the lines in call order).'
     ' Round 7: cases also run with the library at DEBUG; use after a failed connect must raise a transport error.'
     ' Round 8: `cancel_read k`; read-side EOF followed by a write on the open connection.'
+    ' Round 11: duplex sessions in which written lines come back on the incoming stream; `gap` (virtual minutes to days pass before the awaited line arrives).'
     ' Round 9: the in-memory transport keeps the written objects by reference; EAGAIN/EINTR/ENOSPC/... among link errors.'
     ' Round 10: the in-memory connection counts queued objects discarded by abort(); disconnect of a healthy connection may not discard written lines.'
 )
@@ -104,11 +105,13 @@ def _duplex_case(draw) -> dict:
     for _ in range(draw(st.integers(1, 3))):
         sessions.append({
             "lines": draw(st.lists(st.sampled_from(GOOD_LINES[7:12] + ("5;5;1;0;2;1", "x")), min_size=1, max_size=3)),
-            "writes": draw(st.lists(st.sampled_from(("1;1;1;0;2;1\n", "12;6;1;0;47;åäö\n", "255;255;3;0;4;7\n")), min_size=0, max_size=3)),
+            "writes": draw(st.lists(st.sampled_from(("1;1;1;0;2;1\n", "12;6;1;0;47;åäö\n", "255;255;3;0;4;7\n", "5;5;1;0;2;1\n", "x\n")), min_size=0, max_size=3)),
             "pending": draw(st.sampled_from(("none", "empty", "partial", "partial"))),
             "end": draw(st.sampled_from(("disconnect", "disconnect", "disconnect-twice", "eof-then-disconnect"))),
             "concurrent": draw(st.one_of(st.just([]), st.lists(st.sampled_from(LONG_WRITES), min_size=2, max_size=3))),
             "cancel_read": draw(st.sampled_from((None, None, 0, 1, 2, 3))),
+            "gap": draw(st.sampled_from((0, 0, 0, 5, 301, 100000))),
+            "raw_lines": draw(st.sampled_from((False, False, True))),
         })
     return {"kind": "duplex", "transport": draw(st.sampled_from(("base", "tcp", "serial"))), "sessions": sessions}
 
@@ -124,6 +127,17 @@ def _duplex_enumerated():
         for k in range(0, 5):
             for count in (1, 3):
                 yield {"kind": "duplex", "transport": transport, "sessions": [{"lines": ["1;1;1;0;0;20.5", "2;2;1;0;0;x", "3;3;1;0;0;y"][:count], "writes": [], "pending": "none", "end": "eof-then-disconnect", "cancel_read": k}]}
+        # what was written comes back on the incoming stream (the node echoes a command with the ack flag; a bus that echoes): a line like any other
+        for pending in ("none", "empty", "partial"):
+            echo = {"lines": ["1;1;1;0;2;1", "2;2;1;0;0;x", "1;1;1;0;2;1", "12;6;1;1;47;åäö"], "writes": ["1;1;1;0;2;1\n", "12;6;1;1;47;åäö\n"], "pending": pending, "end": "disconnect", "raw_lines": True}
+            yield {"kind": "duplex", "transport": transport, "sessions": [echo]}
+            yield {"kind": "duplex", "transport": transport, "sessions": [echo, echo]}
+        # a quiet link: a read waits minutes, hours, days (virtual time) for the next line, or for the rest of one
+        for gap in (1, 299, 301, 3600, 86400 * 3):
+            for pending in ("empty", "partial"):
+                quiet = {"lines": ["1;1;1;0;0;20.5", "2;2;1;0;0;x"], "writes": ["1;1;1;0;2;1\n"], "pending": pending, "end": "disconnect", "gap": gap}
+                yield {"kind": "duplex", "transport": transport, "sessions": [quiet]}
+                yield {"kind": "duplex", "transport": transport, "sessions": [quiet, quiet]}
         for burst in (list(LONG_WRITES[:2]), list(LONG_WRITES[:3]), [LONG_WRITES[1], LONG_WRITES[2], LONG_WRITES[3]], [LONG_WRITES[4], LONG_WRITES[0]]):
             yield {"kind": "duplex", "transport": transport, "sessions": [{"lines": ["1;1;1;0;0;20.5"], "writes": ["1;1;1;0;2;1\n"], "pending": "partial", "end": "disconnect", "concurrent": burst}]}
 
@@ -483,7 +497,7 @@ def _run_duplex(case: dict) -> Outcome:
                 if len(opened) != before + 1:
                     return fail("duplex:connect-opened-nothing", f"{where}: connect returned but opened {len(opened) - before} connections")
                 reader, mem = opened[-1]
-                lines = [f"s{sidx};{text}" for text in session["lines"]]
+                lines = [text if session.get("raw_lines") else f"s{sidx};{text}" for text in session["lines"]]
                 raw = [(line + "\n").encode("utf-8") for line in lines]
                 pending = None
                 fed_first = 0
@@ -532,6 +546,8 @@ def _run_duplex(case: dict) -> Outcome:
                     info["concurrent"] = info.get("concurrent", 0) + 1
                     if bytes(mem.data) != want_out:
                         return fail("duplex:concurrent-writes-interleaved", f"{where}: {len(burst)} tasks wrote one line each (call order); the connection received {bytes(mem.data)[-300:]!r}")
+                if session.get("gap"):
+                    await asyncio.sleep(float(session["gap"]))  # a quiet link: nothing arrives for that long (virtual time) while a read may be waiting
                 reader.feed_data(raw[0][fed_first:] + b"".join(raw[1:]))
                 got = []
                 cancel_after = session.get("cancel_read")
